@@ -10,7 +10,7 @@
    decided by TraceValidator.tla.  Run with -simulate (seeded); an operation is chosen in two steps
    (kind, then arguments).                                                                     *)
 EXTENDS Integers, Sequences, FiniteSets, TLC, Json
-CONSTANTS K
+CONSTANTS K, Mode       \* Mode "sim": seeded simulation; "edge": the exhaustive boundary product below
 VARIABLES setup, hist, pending, done
 gvars == <<setup, hist, pending, done>>
 StakeSets == {<<"250000", "130000.5", "120000", "90000">>,
@@ -34,12 +34,51 @@ OpsOf(kind) ==
                           ld \in 0..2, g \in 0..1, sk \in 0..2, fb \in BOOLEAN}
     [] kind \in {"e", "e2"} -> {[op |-> "epoch", leader |-> ld, gap |-> g, skip |-> 1, fallback |-> FALSE] : ld \in 0..1, g \in 0..1}
 Kinds == {"s", "s2", "u", "u2", "c", "o", "r", "e", "e2"}
-GInit == setup \in Setups /\ hist = <<>> /\ pending = "" /\ done = FALSE
-Pick == /\ ~done /\ Len(hist) < K /\ pending = "" /\ pending' \in Kinds /\ UNCHANGED <<setup, hist, done>>
+\* ---- Mode "edge": nothing at a boundary is left to the random draw (the quick tier runs all of these)
+Mk(s, reg, e, r, mv, ue) == [stakes |-> s, registered |-> reg, emission |-> e, minrel |-> r, maxv |-> mv, unstake |-> ue]
+S1 == <<"250000", "130000.5", "120000", "90000">>
+Reg4 == <<TRUE, TRUE, TRUE, FALSE>>
+Rd(ld) == [op |-> "round", leader |-> ld, gap |-> 0, skip |-> 0, fallback |-> FALSE]
+RdF(ld) == [op |-> "round", leader |-> ld, gap |-> 0, skip |-> 0, fallback |-> TRUE]
+Ep(ld) == [op |-> "epoch", leader |-> ld, gap |-> 0, skip |-> 0, fallback |-> FALSE]
+St(v, u, c) == [op |-> "stake", v |-> v, u |-> u, amt |-> c]
+Un(v, u, c) == [op |-> "unstake", v |-> v, u |-> u, amt |-> c]
+Cl(v, u, c) == [op |-> "claim", v |-> v, u |-> u, amt |-> c]
+Own(o, v) == [op |-> o, v |-> v]
+Fee(v, f) == [op |-> "update_fee", v |-> v, fee |-> f]
+Skew(b) == IF b THEN <<Rd(0), Ep(0)>> ELSE <<>>          \* after an emission the unit price is not 1 any more
+\* A: every genesis stake set (100k bucket boundaries, ties, dust) x max_validators 1..3: set selection after
+\*    a bucket-crossing stake, unregistration, fee change (0 | 1 | invalid 1.5), re-registration
+EdgeA == {[setup |-> Mk(s, [i \in 1..Len(s) |-> i # 3], "100", "0.8", mv, 1),
+           ops |-> <<Rd(0), Ep(0), St(Len(s), 2, "bucket"), Own("unregister", 1), Fee(2, <<"0", "1", "1.5">>[mv]), Rd(0), Ep(0),
+                     Own("register", 1), Own("register", 3), Rd(0), Ep(0)>>] : s \in StakeSets, mv \in 1..3}
+\* B: stake -> unstake(exactly the minted units) -> claim, every XRD class x validator in / not in the set x unit price 1 / skewed
+EdgeB == {[setup |-> Mk(S1, Reg4, "100", "0", 2, 1),
+           ops |-> Skew(sk) \o <<St(v, 2, c), Un(v, 2, "last"), Rd(0), Ep(0), Rd(0), Ep(0), Cl(v, 2, "ripe")>>]
+            : v \in {1, 4}, c \in XrdClasses \cup {"all", "=0"}, sk \in BOOLEAN}
+\* C: every unit class of unstake, by a fresh staker and by the genesis holder
+EdgeC == {[setup |-> Mk(S1, Reg4, "100", "0", 2, 1),
+           ops |-> Skew(sk) \o <<St(v, 2, "mid"), Un(v, 2, c), Un(v, 1, c)>>] : v \in {1, 4}, c \in UnitClasses \cup {"=0"}, sk \in BOOLEAN}
+\* D: claims one epoch too early, exactly at, and after the claim epoch (unbonding 1 and 2 epochs)
+EdgeD == {[setup |-> Mk(S1, Reg4, "100", "0", 2, ue),
+           ops |-> <<St(1, 2, "mid"), Un(1, 2, "half"), Un(1, 2, "tiny"), Cl(1, 2, "any"), Rd(0), Ep(0), Cl(1, 2, "any"), Rd(0), Ep(0),
+                     Cl(1, 2, "first"), Cl(1, 2, "any")>>] : ue \in {1, 2}}
+\* E: reliability exactly at / below / above the minimum x emission per epoch (1 atto, a repeating fraction, 100)
+Pattern(p) == CASE p = "none" -> <<Rd(1), Ep(1)>>                                   \* leader 0 never proposed: counts as reliable
+                [] p = "allmade" -> <<Rd(0), Rd(0), Ep(0)>>
+                [] p = "threshold" -> <<Rd(0), Rd(0), Rd(0), RdF(0), Ep(0)>>          \* 4 made, 1 missed = 0.8
+                [] p = "below" -> <<Rd(0), RdF(0), RdF(0), Ep(0)>>                    \* 2 made, 2 missed
+EdgeE == {[setup |-> Mk(S1, Reg4, e, r, 2, 1), ops |-> Pattern(p) \o <<St(1, 2, "one"), Rd(0), Ep(0)>>]
+            : p \in {"none", "allmade", "threshold", "below"}, r \in {"0", "0.8", "1"},
+              e \in {"100", "0.000000000000000001", "0.333333333333333333"}}
+EdgeCases == EdgeA \cup EdgeB \cup EdgeC \cup EdgeD \cup EdgeE
+GInit == IF Mode = "edge" THEN \E c \in EdgeCases : setup = c.setup /\ hist = c.ops /\ pending = "" /\ done = FALSE
+         ELSE setup \in Setups /\ hist = <<>> /\ pending = "" /\ done = FALSE
+Pick == /\ Mode = "sim" /\ ~done /\ Len(hist) < K /\ pending = "" /\ pending' \in Kinds /\ UNCHANGED <<setup, hist, done>>
 Fill == /\ ~done /\ pending # ""
         /\ \E o \in OpsOf(pending) : hist' = Append(hist, o)
         /\ pending' = "" /\ UNCHANGED <<setup, done>>
-Finish == /\ ~done /\ Len(hist) = K /\ done' = TRUE /\ UNCHANGED <<setup, hist, pending>>
+Finish == /\ ~done /\ (Mode = "edge" \/ Len(hist) = K) /\ done' = TRUE /\ UNCHANGED <<setup, hist, pending>>
 GNext == Pick \/ Fill \/ Finish
 GSpec == GInit /\ [][GNext]_gvars
 Emit == done => PrintT(<<"B", ToJson([stakes |-> setup.stakes, registered |-> setup.registered, emission |-> setup.emission,
